@@ -15,6 +15,7 @@ use crate::props::stacks::*;
 use serde::{Deserialize, Serialize};
 use serde_json::json;
 use std::collections::BTreeMap;
+use wax::Program;
 use wax::walk::{LinkBehavior, PathExt, WalkBehavior};
 
 pub struct C20;
@@ -318,27 +319,66 @@ impl Property for C20 {
                     _ => None,
                 })
                 .collect();
-            let bare_model = model(&entries, glob_rt.as_ref(), &[]);
-            let beneath = |set: &std::collections::BTreeSet<String>, rel: &str, or_equal: bool| -> bool {
-                set.iter().any(|d| {
-                    (or_equal && d == rel) || if d.is_empty() { !rel.is_empty() } else { rel.starts_with(&format!("{}/", d)) }
-                })
+            // the glob's own pruning is not predicted from its component programs: it is observed
+            // from a probed run of this very placement and validated (nothing skipped that could
+            // match), so a different sound pruning strategy cannot raise an alarm
+            let cap = 20 * (reference.len() + 10);
+            let observed = match &glob_rt {
+                None => None,
+                Some(g) => match guard(|| run_stack(&base, &case.under, &[], beh, cap)) {
+                    Ok(Ok(Some(o))) => {
+                        if o.capped {
+                            return Err(describe(&format!("the probed walk did not terminate within {} items", cap)));
+                        }
+                        let log = o.logs.last().cloned().unwrap_or_default();
+                        let fed: std::collections::BTreeSet<String> = log.iter().cloned().collect();
+                        if fed.len() != log.len() {
+                            return Err(describe(&format!("the walk feeds an entry downstream more than once: {:?}", log)));
+                        }
+                        let yielded = o.items.iter().filter_map(|i| i.rel.clone()).collect();
+                        match observe(&entries, g, fed, yielded) {
+                            Ok(ob) => Some(ob),
+                            Err(m) => return Err(describe(&m)),
+                        }
+                    },
+                    Ok(Ok(None)) | Ok(Err(_)) => continue,
+                    Err(m) => return Err(describe(&format!("the probed walk panicked: {}", m))),
+                },
             };
+            let via = glob_rt.as_ref().and_then(|g| crate::viable::Viability::new(&g.glob.verif_program_pattern()));
             let mut exp_ok: BTreeMap<String, usize> = BTreeMap::new();
-            let mut exp_err: BTreeMap<String, usize> = BTreeMap::new();
+            let mut optional_root: Option<String> = None;
+            // required: something at or beneath the fault can still match the glob; allowed: every
+            // fault the fault-aware reference traversal meets
+            let mut req_err: BTreeMap<String, usize> = BTreeMap::new();
+            let mut allowed_err: BTreeMap<String, usize> = BTreeMap::new();
             let p_of = |rel: &str| if rel.is_empty() { norm(&base) } else { norm(&base.join(rel)) };
             for it in &reference {
                 match it {
                     RefItem::Entry { rel, .. } => {
-                        if bare_model.yielded.contains(rel) {
+                        let keep = match &glob_rt {
+                            None => true,
+                            Some(g) => g.glob.is_match(rel.as_str()),
+                        };
+                        if keep && rel.is_empty() && glob_rt.is_some() {
+                            // the base itself may but need not be yielded (C02)
+                            optional_root = Some(p_of(rel));
+                            continue;
+                        }
+                        if keep {
                             *exp_ok.entry(p_of(rel)).or_insert(0) += 1;
                         }
                     },
                     RefItem::Error { rel, what } => {
-                        // not reached when beneath (or, for a directory's own read error, at) a
-                        // directory the glob prunes
                         let own = *what == "unreadable directory";
-                        if beneath(&bare_model.discarded, rel, own) {
+                        *allowed_err.entry(p_of(rel)).or_insert(0) += 1;
+                        let must = match (&glob_rt, &via) {
+                            (None, _) => true,
+                            (Some(_), Some(v)) => v.beneath_viable(rel) == Some(true) || (!own && v.matches(rel) == Some(true)),
+                            (Some(_), None) => false,
+                        };
+                        if !must {
+                            st.count("fault_optional");
                             continue;
                         }
                         match *what {
@@ -347,12 +387,16 @@ impl Property for C20 {
                             "link re-enters an ancestor" => st.count("fault_reentrant_reached"),
                             _ => {},
                         }
-                        *exp_err.entry(p_of(rel)).or_insert(0) += 1;
+                        *req_err.entry(p_of(rel)).or_insert(0) += 1;
                     },
                 }
             }
+            let beneath = |set: &std::collections::BTreeSet<String>, rel: &str, or_equal: bool| -> bool {
+                set.iter().any(|d| {
+                    (or_equal && d == rel) || if d.is_empty() { !rel.is_empty() } else { rel.starts_with(&format!("{}/", d)) }
+                })
+            };
             // ---- bare walk
-            let cap = 20 * (reference.len() + 10);
             let bare = guard(|| match &glob_rt {
                 None => collect(base.walk_with_behavior(beh), cap),
                 Some(g) => collect(g.glob.walk_with_behavior(base.clone(), beh), cap),
@@ -377,8 +421,20 @@ impl Property for C20 {
                     *act_err.entry(p.clone()).or_insert(0) += 1;
                 }
             }
-            if act_err != exp_err {
-                return Err(describe(&format!("error items by path {:?}, but the faults reached are {:?} (exactly one error per reached fault, naming its path)", act_err, exp_err)));
+            for (p, n) in &req_err {
+                if act_err.get(p) != Some(n) {
+                    return Err(describe(&format!("error items by path {:?}, but the fault at {:?} must be reported exactly once, naming its path (required {:?}, possible {:?})", act_err, p, req_err, allowed_err)));
+                }
+            }
+            for (p, n) in &act_err {
+                if allowed_err.get(p).map_or(true, |m| n > m) {
+                    return Err(describe(&format!("error items by path {:?}: {:?} is not a fault of this tree, or is reported more than once (possible {:?})", act_err, p, allowed_err)));
+                }
+            }
+            if let Some(r) = &optional_root {
+                if act_ok.get(r) == Some(&1) {
+                    act_ok.remove(r);
+                }
             }
             if act_ok != exp_ok {
                 let missing: Vec<&String> = exp_ok.keys().filter(|k| act_ok.get(*k) != exp_ok.get(*k)).collect();
@@ -468,7 +524,7 @@ impl Property for C20 {
             }
             // ---- discarding stack
             if !case.layers.is_empty() {
-                let m = model(&entries, glob_rt.as_ref(), &layers_rt);
+                let m = model_with(&entries, glob_rt.as_ref(), observed.as_ref(), &layers_rt);
                 let rel_of = |p: &str| -> String {
                     let b = norm(&base);
                     if p == b {
